@@ -542,11 +542,146 @@ fn generic(g: &mut SplitMix64, ncases: usize) {
         }
         // --- insert/remove probabilities, preferably of the bond just added
         let bond = if g.chance(3, 4) { new_bond } else { None };
-        if prob_on(g, &rng, smp, kind, beta, ProbOpts { bond, table_from_ham: true }) {
+        if prob_on(g, &rng, smp, kind, beta, ProbOpts { bond, table_from_ham: true, ..Default::default() }) {
             if bond.is_some() {
                 stat("generic_prob_on_new_bond", 1);
             }
         }
+        done += 1;
+    }
+}
+
+/// Ising sampler run hot (the cutoff grows), then cold (few operators spread over the long string), converted with
+/// `into_qmc` (also: converted before any step), then stepped as a generic sampler: the sweep has to use the cutoff the
+/// string was built with, visit every slot, and at β = 1e-12 empty every slot of diagonal operators.
+fn converted(g: &mut SplitMix64, ncases: usize) {
+    let mut done = 0;
+    let mut tries = 0;
+    while done < ncases && tries < ncases * 20 {
+        tries += 1;
+        let rng = SharedRng::new(g.next());
+        let spec = if g.chance(1, 4) { gen_frustrated_spec(g) } else { gen_ising_spec(g) };
+        let mut ising = Smp::Ising(spec.build(&rng), spec.edges.clone());
+        if g.coin() {
+            enable_heatbath(&mut ising, true);
+        }
+        let fresh = g.chance(1, 6);
+        let mut ok = true;
+        if !fresh {
+            let hot = *g.pick(&[2.0, 4.0, 8.0]);
+            for _ in 0..g.range(2, 5) {
+                ok &= catch(|| ising.timestep(hot)).is_ok();
+            }
+            let cold = *g.pick(&[0.125, 0.25, 0.5]);
+            for _ in 0..g.range(0, 4) {
+                ok &= catch(|| ising.timestep(cold)).is_ok();
+            }
+        }
+        if !ok {
+            continue;
+        }
+        let n_at = ising.get_n();
+        let last = ising.slots().iter().rposition(|o| o.is_some()).map(|p| p + 1).unwrap_or(0);
+        let (mut smp, l) = match convert_to_generic(ising) {
+            Some(x) => x,
+            None => {
+                emit(true, "convert-panic", "PANIC", Some(Err("into_qmc panicked".into())));
+                continue;
+            }
+        };
+        let kind = if fresh { "converted_fresh" } else { "converted_hot_cold" };
+        if last > n_at + n_at / 2 + 1 {
+            stat("converted_last_op_beyond_n_plus_half_n", 1);
+        }
+        let beta = *g.pick(&[0.25, 0.5, 1.0]);
+        let heat = g.coin();
+        enable_heatbath(&mut smp, heat);
+        // first sweep after the conversion: with the cutoff of the Ising sampler
+        if !emit_sweep(&mut smp, &rng, beta, kind, heat, Some(l), false) {
+            continue;
+        }
+        if g.coin() && !emit_sweep(&mut smp, &rng, beta, kind, heat, None, false) {
+            continue;
+        }
+        // probabilities (heat-bath), on a second conversion-fresh clone when possible
+        let mut p = smp.clone();
+        enable_heatbath(&mut p, true);
+        prob_on(g, &rng, p, kind, beta, ProbOpts { table_from_ham: true, ..Default::default() });
+        // drain: at beta = 1e-12 every diagonal operator anywhere in the string has to go
+        let heat2 = g.coin();
+        enable_heatbath(&mut smp, heat2);
+        emit_sweep(&mut smp, &rng, beta, kind, heat2, None, true);
+        done += 1;
+    }
+    // the drain / cutoff oracle directly after the conversion (no sweep in between)
+    let mut done = 0;
+    let mut tries = 0;
+    while done < ncases / 2 && tries < ncases * 20 {
+        tries += 1;
+        let rng = SharedRng::new(g.next());
+        let spec = gen_ising_spec(g);
+        let mut ising = Smp::Ising(spec.build(&rng), spec.edges.clone());
+        let mut ok = true;
+        let hot = *g.pick(&[2.0, 4.0, 8.0]);
+        for _ in 0..g.range(2, 5) {
+            ok &= catch(|| ising.timestep(hot)).is_ok();
+        }
+        for _ in 0..g.range(1, 4) {
+            ok &= catch(|| ising.timestep(0.125)).is_ok();
+        }
+        if !ok {
+            continue;
+        }
+        if let Some((mut smp, l)) = convert_to_generic(ising) {
+            let heat = g.coin();
+            enable_heatbath(&mut smp, heat);
+            if g.coin() {
+                emit_sweep(&mut smp, &rng, 1.0, "converted_then_drain", heat, Some(l), true);
+            } else {
+                let mut p = smp.clone();
+                enable_heatbath(&mut p, true);
+                let b2 = *g.pick(&[0.25, 0.5, 1.0]);
+                prob_on(g, &rng, p, "converted_then_prob", b2, ProbOpts { table_from_ham: true, expect_cutoff: Some(l), ..Default::default() });
+            }
+            done += 1;
+        }
+    }
+}
+
+/// Ising sampler with a longitudinal field of either sign under heat-bath: sweeps replayed with the table of the FULL
+/// Hamiltonian (edges, transverse and field bonds) and the insert/remove probabilities of FIELD bonds bisected on
+/// favoured spins (weight 2|h|) resp. shown to be 0 on unfavoured spins (weight 0).
+fn ising_field(g: &mut SplitMix64, ncases: usize) {
+    let mut done = 0;
+    let mut tries = 0;
+    while done < ncases && tries < ncases * 20 {
+        tries += 1;
+        let rng = SharedRng::new(g.next());
+        let mut spec = gen_ising_spec(g);
+        spec.h = *g.pick(&[0.25, -0.25, 0.5, -0.5, 1.0, -1.0, 2.0, -1.5]);
+        let mut smp = Smp::Ising(spec.build(&rng), spec.edges.clone());
+        enable_heatbath(&mut smp, true);
+        let beta = *g.pick(&[0.25, 0.5, 1.0, 2.0]);
+        let mut ok = true;
+        for _ in 0..g.range(0, 4) {
+            ok &= catch(|| smp.timestep(beta)).is_ok();
+        }
+        if !ok {
+            continue;
+        }
+        let kind = if spec.h > 0.0 { "ising_field_positive" } else { "ising_field_negative" };
+        if !emit_sweep(&mut smp, &rng, beta, kind, true, None, false) {
+            continue;
+        }
+        if g.coin() {
+            let _ = catch(|| smp.timestep(beta));
+            if !emit_sweep(&mut smp, &rng, beta, kind, true, None, false) {
+                continue;
+            }
+        }
+        let v = g.below(spec.nvars as u64) as usize;
+        let bond = Some(spec.edges.len() + spec.nvars + v);
+        prob_on(g, &rng, smp, kind, beta, ProbOpts { bond, table_from_ham: true, zero_ok: true, ..Default::default() });
         done += 1;
     }
 }
@@ -576,7 +711,11 @@ fn main() {
                 }
             }
         }
-        "generic" => generic(&mut g, if a.thorough { 3000 } else { 300 }),
+        "generic" => {
+            generic(&mut g, if a.thorough { 3000 } else { 300 });
+            converted(&mut g, if a.thorough { 2000 } else { 200 });
+            ising_field(&mut g, if a.thorough { 3000 } else { 300 });
+        }
         m => panic!("unknown mode {}", m),
     }
 }
